@@ -59,6 +59,19 @@ def check(ctx) -> Result:
     rets = [r for r in walk_no_nested(ms.node) if isinstance(r, ast.Return)]
     res.add(len(rets) == 1 and src(rets[0].value).replace(" ", "") == "permutation_mat_from_swaps_dict(self.swaps,n_modes)", "M4-permutation-orientation", "ModeSwaps.get_unitary", ms.site(), ms.qualname,
             "ModeSwaps compiles through permutation_mat_from_swaps_dict(self.swaps, n_modes)", "ModeSwaps no longer compiles its swap dictionary through the checked permutation builder", construct=src(rets[0].value) if rets else "")
+    # the unitary block is copied at construction (later edits of the caller's array must not change the circuit)
+    um = comps["UnitaryMatrix"]
+    post = um.methods.get("__post_init__")
+    if post is None:
+        raise AnalysisError("UnitaryMatrix.__post_init__ not found")
+    sm = ctx.eng.summary(post)
+    ent = sm.heap.get((("P", "self"), "unitary"))
+    locs = ent[0].locs if ent else frozenset({("f", ("P", "self"), "unitary")})
+    res.add(bool(ent) and all(l[0] == "F" for l in locs), "C3-block-copied-at-construction", "UnitaryMatrix.__post_init__", post.site(), post.qualname, "stores a new array (np.array copies)",
+            "UnitaryMatrix keeps a reference to (or a view of) the caller's array: editing that array later silently changes circuits it was already added to", construct="unitary field aliases constructor argument")
+    rm_struct.m3_block_unitary(ctx, res, comps["BeamSplitter"].methods["get_unitary"], {"theta": "angle"})
+    rm_struct.m3_block_unitary(ctx, res, comps["PhaseShifter"].methods["get_unitary"], {"self._phi": "angle"})
+    rm_struct.m3_block_unitary(ctx, res, comps["Loss"].methods["get_unitary"], {"transmission ** 0.5": "a", "(1 - transmission) ** 0.5": "b"})
     # check_loss validated before append is covered by D (C08); here: accepted range of check_loss
     re_guards.range_validator(ctx, res, ctx.func(UTILS, "check_loss"), "loss", 0, 1, norm=norm)
     return res
